@@ -182,36 +182,52 @@ Print Assumptions ident_lookup_exact.
 From Coq Require Import Arith Bool.
 From ChibiV Require Import C14.IdEq C14.IdEqProofs C14.Importers C14.ImportersProofs.
 
-Theorem same_cell_identifier_eq : forall plain e1 a e2 b c,
-  env_cell e1 a = Some c -> env_cell e2 b = Some c -> identifier_eq plain e1 a e2 b = true.
+Theorem same_cell_identifier_eq : forall undef e1 a e2 b c,
+  env_cell e1 a = Some c -> env_cell e2 b = Some c -> undef c = false -> identifier_eq undef e1 a e2 b = true.
 Proof. exact same_cell_identifier_eq_proof. Qed.
 Print Assumptions same_cell_identifier_eq.
 
-Theorem different_names_need_one_cell : forall plain e1 a e2 b,
-  a <> b -> identifier_eq plain e1 a e2 b = true ->
-  exists c, env_cell e1 a = Some c /\ env_cell e2 b = Some c.
+Theorem different_names_need_one_cell : forall undef e1 a e2 b,
+  a <> b -> identifier_eq undef e1 a e2 b = true ->
+  exists c, env_cell e1 a = Some c /\ env_cell e2 b = Some c /\ undef c = false.
 Proof. exact different_names_need_one_cell_proof. Qed.
 Print Assumptions different_names_need_one_cell.
 
-Theorem keyword_identifier_eq_exact : forall plain e1 a e2 b c2,
-  env_cell e2 b = Some c2 -> plain c2 = false ->
-  identifier_eq plain e1 a e2 b = match env_cell e1 a with Some c1 => Nat.eqb c1 c2 | None => false end.
+Theorem keyword_identifier_eq_exact : forall undef e1 a e2 b c2,
+  env_cell e2 b = Some c2 -> undef c2 = false ->
+  identifier_eq undef e1 a e2 b = match live_cell undef e1 a with Some c1 => Nat.eqb c1 c2 | None => false end.
 Proof. exact keyword_identifier_eq_exact_proof. Qed.
 Print Assumptions keyword_identifier_eq_exact.
 
-Theorem renamed_import_is_the_keyword : forall plain to from ids immutp n m c,
-  to <> nil -> In (n, m) ids -> (forall m', In (n, m') ids -> m' = m) -> env_cell from m = Some c ->
-  identifier_eq plain (env_import to from (Some ids) immutp) n from m = true /\
-  (forall e2 b c2, env_cell e2 b = Some c2 -> plain c2 = false ->
-     identifier_eq plain (env_import to from (Some ids) immutp) n e2 b = Nat.eqb c c2).
+Theorem renamed_import_is_the_keyword : forall undef to from ids immutp n m c,
+  to <> nil -> In (n, m) ids -> (forall m', In (n, m') ids -> m' = m) -> env_cell from m = Some c -> undef c = false ->
+  identifier_eq undef (env_import to from (Some ids) immutp) n from m = true /\
+  (forall e2 b c2, env_cell e2 b = Some c2 -> undef c2 = false ->
+     identifier_eq undef (env_import to from (Some ids) immutp) n e2 b = Nat.eqb c c2).
 Proof. exact renamed_import_is_the_keyword_proof. Qed.
 Print Assumptions renamed_import_is_the_keyword.
 
-Theorem identifier_eq_beyond_same_binding : forall plain e1 a e2 b,
-  identifier_eq plain e1 a e2 b = true -> same_binding e1 a e2 b = false ->
-  a = b /\ (forall c, env_cell e1 a = Some c -> plain c = true) /\ (forall c, env_cell e2 b = Some c -> plain c = true).
-Proof. exact identifier_eq_beyond_same_binding_proof. Qed.
-Print Assumptions identifier_eq_beyond_same_binding.
+(** round 4: the model of the (repaired, strict-build) sexp_identifier_eq_op IS R7RS 4.3.2's literal matching -- same binding, or both
+    unbound and the same name, where a cell that only a reference created counts as unbound -- for all environments *)
+Theorem identifier_eq_is_r7rs_literal_match : forall undef e1 a e2 b,
+  identifier_eq undef e1 a e2 b = true <-> r7rs_literal_match undef e1 a e2 b.
+Proof. exact identifier_eq_is_r7rs_literal_match_proof. Qed.
+Print Assumptions identifier_eq_is_r7rs_literal_match.
+
+(** referring to an undefined variable (analyze_var_ref creates an undefined cell) never changes which literals match *)
+Theorem reference_does_not_change_identifier_eq : forall undef e1 a e2 b n fresh,
+  undef fresh = true ->
+  identifier_eq undef (reference e1 n fresh) a e2 b = identifier_eq undef e1 a e2 b /\
+  identifier_eq undef e1 a (reference e2 n fresh) b = identifier_eq undef e1 a e2 b.
+Proof. exact reference_does_not_change_identifier_eq_proof. Qed.
+Print Assumptions reference_does_not_change_identifier_eq.
+
+(** ... which the PINNED function (every cell counts as a binding) does not satisfy: F-C14-3 *)
+Theorem pinned_identifier_eq_depends_on_references_refuted :
+  ~ (forall e1 a e2 b n fresh,
+       identifier_eq_pinned (reference e1 n fresh) a e2 b = identifier_eq_pinned e1 a e2 b).
+Proof. exact pinned_identifier_eq_depends_on_references_refuted_proof. Qed.
+Print Assumptions pinned_identifier_eq_depends_on_references_refuted.
 
 Theorem load_once_any_importer : forall d fuel (reqs : list request) l,
   body_evals (table_state (fst (run fuel d boot reqs))) l <= 1.
@@ -236,16 +252,30 @@ Theorem importer_kind_irrelevant : forall d fuel (reqs : list request),
 Proof. exact importer_kind_irrelevant_proof. Qed.
 Print Assumptions importer_kind_irrelevant.
 
-(** ---- round 3: cond-expand feature logic, translated on every run from lib/init-7.scm ---- *)
-From ChibiV Require Import C14.CondExpand Gen.C14_CondExpand C14.CondExpandProofs.
+(** ---- cond-expand feature logic, translated on every run from lib/init-7.scm; round 4: UNBOUNDED (nested induction over [feature]) ---- *)
+From ChibiV Require Import C14.Sx C14.World C14.CondExpand Gen.C14_CondExpand C14.CondExpandUnbounded.
 
-(** [check_agrees f] (CondExpandProofs.v): ce_check FE0 64 W0 (enc_feature f) = Ok v with truthy v = holds feats0 lib_exists0 f *)
-Theorem cond_expand_feature_logic_bounded : forall f, In f depth2 -> check_agrees f = true.
-Proof. exact cond_expand_feature_logic_bounded_proof. Qed.
-Print Assumptions cond_expand_feature_logic_bounded.
+(** for EVERY feature requirement f (any nesting of and / or / not / (library name) / identifier, any number of operands), every feature
+    list and every module table on which find-module answers: the translated [check] returns a value whose truth is [holds f]
+    (fuel: one unit per nesting level, premise visible) *)
+Theorem cond_expand_feature_logic : forall feats W,
+  (forall n, exists v, w_find_module W n = Ok v) ->
+  forall f fuel, fdepth f < fuel ->
+  exists v, ce_check (FE feats) fuel W (enc_feature f) = Ok v /\ truthy v = holds feats (lib_exists W) f.
+Proof. exact check_refines_holds. Qed.
+Print Assumptions cond_expand_feature_logic.
 
-(** [expand_agrees cs]: ce_expand on the encoded clause list answers (begin . body) of the first clause whose requirement holds
-    (else = always), #t when there is none -- CondExpand.select *)
-Theorem cond_expand_selects_first_true_clause_bounded : forall cs, In cs clause_lists -> expand_agrees cs = true.
-Proof. exact cond_expand_selects_first_true_clause_bounded_proof. Qed.
-Print Assumptions cond_expand_selects_first_true_clause_bounded.
+(** for EVERY clause list whose else clause (if any) is the last one: the translated [expand] answers (begin . body) of the first clause
+    whose requirement holds (else = always), #t when there is none -- CondExpand.select *)
+Theorem cond_expand_selects_first_true_clause : forall feats W,
+  (forall n, exists v, w_find_module W n = Ok v) ->
+  forall cs fuel, wf_clauses cs -> length cs + cdepth cs < fuel ->
+  ce_expand (FE feats) fuel W (list_sx (map enc_clause cs)) =
+  Ok (match select feats (lib_exists W) cs with Some body => Pair (Sym "begin") body | None => Bool true end).
+Proof. exact expand_refines_select. Qed.
+Print Assumptions cond_expand_selects_first_true_clause.
+
+(** the hypothesis on the module table holds of every association list *)
+Theorem module_table_total : forall es n, exists v, w_find_module (table es) n = Ok v.
+Proof. exact table_total. Qed.
+Print Assumptions module_table_total.
